@@ -282,9 +282,10 @@ static const struct bind_s binds[] = {
 	{C_YD, "+1d", NULL}, {C_YD, "-31d", NULL}, {C_YD, "+366d", NULL}, {C_YD, "-1w", NULL}, {C_YD, "+53w", NULL}, {C_YD, "-1461d", NULL},
 	{C_YMCW, "+1d", NULL}, {C_YMCW, "-31d", NULL}, {C_YMCW, "+366d", NULL}, {C_YMCW, "-1w", NULL}, {C_YMCW, "+53w", NULL}, {C_YMCW, "-1461d", NULL},
 	{C_BIZDA, "+1d", NULL}, {C_BIZDA, "-31d", NULL}, {C_BIZDA, "+366d", NULL}, {C_BIZDA, "-1w", NULL}, {C_BIZDA, "+53w", NULL}, {C_BIZDA, "-1461d", NULL},
-	{C_EPOCH, "+1w", NULL}, {C_EPOCH, "-31d", NULL},
+	/* epoch input lines only with positive durations: under -i %s a first argument like -31d is itself read as the date @-31 */
+	{C_EPOCH, "+1w", NULL}, {C_EPOCH, "+31d", NULL},
 	/* thorough only from here */
-	{C_EPOCH, "+53w", "%F"}, {C_EPOCH, "-1w", "%s"}, {C_YMCW0, "+1d", NULL}, {C_YMCW0, "-1w", "%F"}, {C_YWD0, "+1d", NULL}, {C_YWD0, "-1w", "%F"},
+	{C_EPOCH, "+53w", "%F"}, {C_EPOCH, "+5w", "%s"}, {C_YMCW0, "+1d", NULL}, {C_YMCW0, "-1w", "%F"}, {C_YWD0, "+1d", NULL}, {C_YWD0, "-1w", "%F"},
 	{C_YMD, "-1d", NULL}, {C_YMD, "+30d", NULL}, {C_YMD, "-365d", NULL}, {C_YMD, "+1w", NULL}, {C_YMD, "-52w", NULL}, {C_YMD, "+800d", NULL},
 	{C_YWD, "-1d", NULL}, {C_YWD, "+30d", NULL}, {C_YWD, "-365d", NULL}, {C_YWD, "+1w", NULL}, {C_YWD, "-52w", NULL}, {C_YWD, "+800d", NULL},
 	{C_YD, "-1d", NULL}, {C_YD, "+30d", NULL}, {C_YD, "-365d", NULL}, {C_YD, "+1w", NULL}, {C_YD, "-52w", NULL}, {C_YD, "+800d", NULL},
